@@ -136,35 +136,3 @@ Definition vclear (k : string) (v : value) : value :=
   match v with VM f => VM (aremove k f) | _ => v end.
 Definition vset (k : string) (x : value) (v : value) : value :=
   match v with VM f => VM (aset k x f) | _ => v end.
-
-(* Induction principle for the nested inductive. *)
-Section value_induction.
-  Variable P : value -> Prop.
-  Hypothesis HS : forall s, P (VS s).
-  Hypothesis HM : forall fs, Forall (fun kv => P (snd kv)) fs -> P (VM fs).
-  Hypothesis HL : forall l, Forall P l -> P (VL l).
-  Hypothesis HMap : forall kv, Forall (fun e => P (snd e)) kv -> P (VMap kv).
-
-  Fixpoint value_ind' (v : value) : P v :=
-    match v with
-    | VS s => HS s
-    | VM fs =>
-        HM fs ((fix go (l : list (string * value)) : Forall (fun kv => P (snd kv)) l :=
-                  match l with
-                  | [] => Forall_nil _
-                  | kv :: r => Forall_cons kv (value_ind' (snd kv)) (go r)
-                  end) fs)
-    | VL l =>
-        HL l ((fix go (l : list value) : Forall P l :=
-                 match l with
-                 | [] => Forall_nil _
-                 | x :: r => Forall_cons x (value_ind' x) (go r)
-                 end) l)
-    | VMap kv =>
-        HMap kv ((fix go (l : list (scalar * value)) : Forall (fun e => P (snd e)) l :=
-                    match l with
-                    | [] => Forall_nil _
-                    | e :: r => Forall_cons e (value_ind' (snd e)) (go r)
-                    end) kv)
-    end.
-End value_induction.
